@@ -1328,3 +1328,17 @@ CONTRACTS[CI + 'CliffordGate.compile#backward_only'] = dict(
     may_raise=['ValueError'],
     modifies=[], modifies_scalar=['self.forward_map'], returns='=self',
 )
+
+# ------------------------------------------------------------------ C10: compile of ANY gate - which directions exist afterwards, and when it refuses
+GATE_ANY_C = {'cls': 'CliffordGate', 'fields': {'n': 'int', 'generator': ('opt', dict(PAULI, exact=False)), 'forward_map': ('opt', CMAP), 'backward_map': ('opt', CMAP)}}
+_invreq = lambda m: ('implies(self.generator is None and %s is not None, rows(%s.gs) == cols(%s.gs) and rows(%s.gs) >= 1 and len(%s.ps) == rows(%s.gs) and bits2(%s.gs))' % ((m,) * 7))
+CONTRACTS[CI + 'CliffordGate.compile#any'] = dict(
+    params=[('self', GATE_ANY_C)],
+    requires=['implies(self.generator is not None, len(self.generator.g) % 2 == 0 and bits1(self.generator.g) and 0 <= self.generator.p <= 3)',
+              _invreq('self.forward_map'), _invreq('self.backward_map')],
+    # a gate without generator and without maps (resampled at every call) cannot be compiled: exactly then an Exception
+    raises={'Exception': 'self.generator is None and self.forward_map is None and self.backward_map is None'},
+    may_raise=['ValueError'],
+    ensures=['self.forward_map is not None', 'self.backward_map is not None', 'same_loc(result, self)'],
+    modifies=[], modifies_scalar=['self.forward_map', 'self.backward_map'], returns='=self',
+)
